@@ -86,10 +86,14 @@ CLAIMED["C10"] = dict(
    note="Bounds: quick 1 submitter, thorough 2; context bound 2; switches at synchronisation granularity (sound for data-race-free code). NOT claimed: the second half (every public Agent/Conn method is race-free under concurrency) — that needs a memory-access-level race detector. Schedule-dependent counterexamples are replayed by re-executing the recorded decision vector on the real code's SSA (a native run cannot force a schedule); the harness also runs natively as a sanity check.",
    ref="DESIGN.md §5 C10")
 
+CLAIMED["C11"] = dict(
+   text="Schedule exploration over the REAL handlerNotifier including the drainer goroutines it spawns (two producers, a handler that yields inside, all three callback streams, context bound 2): the handler never runs concurrently with itself, every event is delivered exactly once, a producer's events keep their order, GracefulClose returns only when no handler is running and nothing is invoked afterwards. A second harness explores GatherCandidates racing with Restart over the real task loop, gather goroutine and notifier: at most one nil candidate per cycle, exactly one for a completed cycle, none for a refused or cancelled one.",
+   note="Bounds: 3 events, context bound 2 (3 thorough); gather-vs-restart: context bound 1 (2), first 5 (7) non-preemptive switch points nondeterministic. Switches at synchronisation operations only (sound for data-race-free code). Outside: handlers that re-enter the API, close the agent or block forever; longer bursts. Counterexamples are replayed by re-executing the schedule on the real code's SSA.",
+   ref="DESIGN.md §5 C11")
+
 NOT_APPLICABLE = {
  "C01": "needs two live agents, a symbolic network scheduler and a fairness (liveness) argument; a sequential encoder of single functions cannot express it (its safety half is covered by the C02/C03 lemmas)",
- "C08": "termination / unblocking of blocked goroutines and a goroutine census: no scheduler or channel model in a sequential SSA encoder",
- "C11": "ordering/non-overlap of the three drainer goroutines: concurrency only",
+ "C08": "teardown of a complete live agent (timer goroutine, receive loops, gatherers, mux workers, blocked socket I/O) from any point, in bounded wall-clock time: beyond a context-bounded schedule explorer over a handful of threads; the task loop's own Close is covered by C10",
 }
 
 NOT_BUILT = {
